@@ -488,10 +488,8 @@ class NthDefaultTimes(_DefaultTimes):
     def value(
         self, times, path: np.array, jump_path: np.array, payoff_underlying=None
     ) -> np.array:
-        default_times = super().value(times, path, jump_path, payoff_underlying)
-        index_smallest = np.argpartition(default_times, self._k)[: self._k + 1]
-        default_time = np.amax(default_times[index_smallest])
-        return default_time
+        # _DefaultTimes.value dispatches to self._value_log, which already selects the n-th default time
+        return super().value(times, path, jump_path, payoff_underlying)
 
     def _value_log(
         self, times, path: np.array, jump_path: np.array, payoff_underlying=None
